@@ -214,6 +214,11 @@ class Folder:
                 res = self._apply(lambda r, *a: getattr(r, node.func.attr)(*a), recv, *args)
                 return list(res) if node.func.attr != 'get' else res
         ref = self.res.resolve(node.func, m)
+        if ref == 'builtin:type' and len(node.args) == 1 and not node.keywords:
+            v = f(node.args[0])
+            if v is None or isinstance(v, (bool, int, float, str, tuple, list, dict, set)):
+                return Ref('builtin:NoneType' if v is None else f'builtin:{type(v).__name__}')
+            raise Unfoldable('type() of a symbolic value')
         if ref in _PURE_CALLS and not node.keywords:
             args = [f(a) for a in node.args]
             fn = _PURE_CALLS[ref]
